@@ -257,7 +257,7 @@ type c15End struct{ Client, Conn, Chan string }
 
 type c15World struct {
 	w    *sim.World
-	ends [3][2]c15End
+	ends [2][2]c15End
 	seen map[string]int // "kind/chain/id" -> step of first appearance
 	t    rapid.TB
 	rec  *vx.Case
@@ -273,10 +273,10 @@ func genC15Hist(t *rapid.T) c15Hist {
 		h.Base[i] = rapid.SampledFrom(bases).Draw(t, "base")
 	}
 	kinds := []string{"client", "client", "client", "solo", "conninit", "conninit", "conntry", "conntry", "connfinish", "chaninit", "chaninit", "chantry", "chantry", "combo", "combo"}
-	n := rapid.IntRange(8, 22).Draw(t, "nops")
+	n := rapid.IntRange(8, 24).Draw(t, "nops")
 	for i := 0; i < n; i++ {
-		op := c15Op{K: rapid.SampledFrom(kinds).Draw(t, "k"), P: rapid.IntRange(0, 2).Draw(t, "p"), Side: rapid.IntRange(0, 1).Draw(t, "side")}
-		if rapid.IntRange(0, 2).Draw(t, "bad") == 0 {
+		op := c15Op{K: rapid.SampledFrom(kinds).Draw(t, "k"), P: rapid.IntRange(0, 1).Draw(t, "p"), Side: rapid.IntRange(0, 1).Draw(t, "side")}
+		if rapid.IntRange(0, 3).Draw(t, "bad") == 0 {
 			op.Bad = rapid.IntRange(1, 3).Draw(t, "badkind")
 		}
 		h.Ops = append(h.Ops, op)
@@ -443,6 +443,56 @@ func (x *c15World) connFinish(p, side int) {
 	}
 }
 
+// ---- honest prerequisites (every creation they perform is judged like any other) -------------
+
+func (x *c15World) ensureClient(step, p, s int) {
+	if x.ends[p][s].Client == "" {
+		ids := x.deliver(step, s, "create-client(prereq)", x.msgCreateTM(s, 0))
+		x.ends[p][s].Client = c15First(ids, "client")
+	}
+}
+
+func (x *c15World) connOpen(p, s int) bool {
+	e := x.ends[p][s]
+	if e.Conn == "" {
+		return false
+	}
+	c, found := x.w.App(s).IBCKeeper.ConnectionKeeper.GetConnection(x.w.Ctx(s), e.Conn)
+	return found && c.State == connectiontypes.OPEN
+}
+
+func (x *c15World) ensureConnInit(step, p, s int) {
+	x.ensureClient(step, p, 0)
+	x.ensureClient(step, p, 1)
+	if x.ends[p][s].Conn == "" {
+		ids := x.deliver(step, s, "conn-open-init(prereq)", x.msgConnInit(p, s, 0))
+		x.ends[p][s].Conn = c15First(ids, "connection")
+	}
+}
+
+// ensureConnOpen runs a full honest handshake for path p unless both ends are OPEN.
+func (x *c15World) ensureConnOpen(step, p int) bool {
+	if x.connOpen(p, 0) && x.connOpen(p, 1) {
+		return true
+	}
+	x.ensureClient(step, p, 0)
+	x.ensureClient(step, p, 1)
+	ids := x.deliver(step, 0, "conn-open-init(prereq)", x.msgConnInit(p, 0, 0))
+	if c := c15First(ids, "connection"); c != "" {
+		x.ends[p][0].Conn = c
+	} else {
+		return false
+	}
+	ids = x.deliver(step, 1, "conn-open-try(prereq)", x.msgConnTry(p, 1, 0))
+	if c := c15First(ids, "connection"); c != "" {
+		x.ends[p][1].Conn = c
+	} else {
+		return false
+	}
+	x.connFinish(p, 0)
+	return x.connOpen(p, 0) && x.connOpen(p, 1)
+}
+
 // ---- observation -----------------------------------------------------------------------------
 
 type c15ID struct{ kind, id string }
@@ -537,7 +587,7 @@ func runC15Hist(outer *testing.T) func(rapid.TB, c15Hist, *vx.Case) {
 			w.Block(chain, 1)
 		}
 		for i, op := range h.Ops {
-			p, s := op.P%3, op.Side%2
+			p, s := op.P%2, op.Side%2
 			switch op.K {
 			case "client":
 				ids := x.deliver(i, s, "create-client", x.msgCreateTM(s, op.Bad))
@@ -547,11 +597,18 @@ func runC15Hist(outer *testing.T) func(rapid.TB, c15Hist, *vx.Case) {
 			case "solo":
 				x.deliver(i, s, "create-solomachine", x.msgCreateSolo(s, op.Bad))
 			case "conninit":
+				if op.Bad == 0 {
+					x.ensureClient(i, p, 0)
+					x.ensureClient(i, p, 1)
+				}
 				ids := x.deliver(i, s, "conn-open-init", x.msgConnInit(p, s, op.Bad))
 				if c := c15First(ids, "connection"); c != "" {
 					x.ends[p][s].Conn = c
 				}
 			case "conntry":
+				if op.Bad == 0 || x.ends[p][1-s].Conn == "" {
+					x.ensureConnInit(i, p, 1-s)
+				}
 				ids := x.deliver(i, s, "conn-open-try", x.msgConnTry(p, s, op.Bad))
 				if c := c15First(ids, "connection"); c != "" {
 					x.ends[p][s].Conn = c
@@ -559,11 +616,21 @@ func runC15Hist(outer *testing.T) func(rapid.TB, c15Hist, *vx.Case) {
 			case "connfinish":
 				x.connFinish(p, s)
 			case "chaninit":
+				if op.Bad == 0 {
+					x.ensureConnInit(i, p, s)
+				}
 				ids := x.deliver(i, s, "chan-open-init", x.msgChanInit(p, s, op.Bad))
 				if c := c15First(ids, "channel"); c != "" {
 					x.ends[p][s].Chan = c
 				}
 			case "chantry":
+				if x.ensureConnOpen(i, p) {
+					// the counterparty end needs a channel in INIT for an honest TRY
+					ids := x.deliver(i, 1-s, "chan-open-init(prereq)", x.msgChanInit(p, 1-s, 0))
+					if c := c15First(ids, "channel"); c != "" {
+						x.ends[p][1-s].Chan = c
+					}
+				}
 				ids := x.deliver(i, s, "chan-open-try", x.msgChanTry(p, s, op.Bad))
 				if c := c15First(ids, "channel"); c != "" {
 					x.ends[p][s].Chan = c
